@@ -44,7 +44,8 @@ PROVED (case `any`, 1 path, 8 hand invariants: loops 1 metabolites, 3 genes, 5 r
      dictionary is a new dictionary with the same content; identifier and name of the model are the original's;
  (4) frame: for EVERY field f of ATTRS and every object x that existed at entry f[x] is as at entry (also the coefficient map and the
      solver-variable bounds of the original's reactions); the original model object, its lists, its `_contexts`, its compartments
-     are untouched (engine frame: none of them is in `modifies`); the copy's `_contexts` is a new EMPTY list on return, and at the
+     are untouched (engine frame: none of them is in `modifies`; and explicitly, by python-level identity: every attribute of
+     the original still holds the very value it held at entry and its container records are the entry records); the copy's `_contexts` is a new EMPTY list on return, and at the
      call new_reaction.update_genes_from_gpr() the copy's context stack is an empty list that is NOT the original's (obliged at the
      call site: the defect repaired by e389e4c - mutant M1); the solver is deepcopy(self.solver) (a new object), the tolerance
      setter is called exactly ONCE, with self._tolerance, on the model that already holds that solver (e3eb7c0 - mutant M7); after
@@ -71,7 +72,8 @@ ASSUMED (trusted, listed in props/C12.py).
     these lemmas describe (the representation of new.genes before the call - same list, same index - with `_genes` / `_reaction`
     characterised by the proved formulas).  What that contract itself assumes (GPR.genes = ghost rule_names, Gene(id) allocation)
     is listed with it;
-  * new_group.add_members(list): `self._members.update(list)`, ASSUMED summary: union with the elements of the list;
+  * new_group.add_members(list): NOT assumed - the contract Group.add_members PROVED in c02_xref is applied (`_add_members`), three
+    call-site lemmas are obliged from its post-condition, the remaining direction is used in its Skolem form (ghost witness map);
   * the tolerance setter writes solver configuration and self._tolerance only (as in misc_small); Object.annotation getter / setter
     and Group.members getter are executed from their real source; DictList operations by their C15 contracts; after
     new.<list>.append(x) the explicit form of the index (closed lemma append-index of c02_update_genes, re-proved under C12 by
@@ -95,6 +97,12 @@ MUTANTS (scratch copy of /repo/src, cobra/core/model.py; every one is NOT discha
   M13 `new.reactions.append(new_reaction)` skipped -> loop#7/inv-init.2, .4, .5, .45, .47-.49
   M14 `new_group.add_members(new_objects)` skipped -> loop#10/inv-preserve.50
   M15 final `new._contexts = self._contexts` -> exit post.1
+  M16 a gene with an empty identifier not appended to new.genes (`if new_gene.id != "":`) -> loop#3/inv-preserve.23~2, .27~2
+  M17 `self._tolerance = None` inserted (the ORIGINAL written) -> exit post (attributes of the original / tolerance clause)
+  M18 `new_reaction._metabolites[new_met] = -stoic` (wrong sign) -> loop#7/inv-preserve.46
+  (M1 - M15 were run against the version with ASSUMED summaries of update_genes_from_gpr / add_members, M1, M6, M16 - M18 again with the
+  proved contracts applied; with them M1 additionally leaves the case undecided: the applied contract then has two outcomes.
+  M2 also through tools/mutate_and_run.sh: loop#1/inv-preserve.21 unknown.)
   (removing `"_genes"` / `"_reaction"` from a do_not_copy_by_ref set stores a set-valued field by reference: the case is UNDECIDED
   (Unsupported: aliasing is outside the by-value model), never proved)
 """
@@ -111,6 +119,7 @@ from pyvc.state import alloc_dict, alloc_obj, alloc_list
 from pyvc.values import ident_of, VReal, xr_le
 from . import c01_lp as C1
 from . import c02_update_genes as U
+from . import c02_xref  # noqa  (Group.add_members)
 
 MM = "cobra/core/model.py"
 REG.inline.add("Object.annotation@getter")
@@ -541,19 +550,36 @@ def _update_genes_summary(eng, st, recv):
 
 
 def _add_members(eng, st, recv, lst):
-    """new_group.add_members(<list>): `self._members.update(new_members)` - ASSUMED summary: the group's member set becomes its union
-    with the elements of the list (ghost witness map for `element of the list`)"""
+    """new_group.add_members(<list>) by the contract Group.add_members PROVED in c02_xref (list argument: afterwards x is a member iff it
+    was one or is an element of the list; no other group's members change).  That post-condition has an existential under a
+    universal quantifier; what the invariants need is obliged from it at the call site in quantifier-friendly form (every element of
+    the list is a member; old members stay; other groups untouched) and execution continues in the state these lemmas describe,
+    plus the SKOLEM FORM of the remaining direction (a member afterwards was one before or sits at index w[x] of the list: the
+    witness the existential provides, named by a ghost map - no additional assumption)."""
     if not (isinstance(lst, VObj) and lst.kind == "list" and str(st.objs[lst.oid].get("ekind", "")).startswith("ref")):
         raise Unsupported("add_members of something that is not a list of objects")
     n, e = L(st, lst)
     Mb = eng.heap_arr(st, "_members")
     g = recv.t
-    S1, w = fresh("mb", Mb[g].sort()), fresh("mbw", z3.ArraySort(Ref, I_))
     j, x = qv("aj"), qv("ax", Ref)
+
+    def summary(S1):
+        return [("elements-are-members", FA([j], z3.Implies(z3.And(0 <= j, j < n), S1[e[j]]), patterns=[e[j]])),
+                ("old-members-stay", FA([x], z3.Implies(Mb[g][x], S1[x]), patterns=[Mb[g][x]]))]
+    n_ok = 0
+    for kk, s2, v in eng.apply_contract(st, eng.reg.get("Group.add_members"), [recv, lst], {}):
+        if kk != "ok":
+            raise Unsupported("add_members: an exceptional outcome of the applied contract")
+        n_ok += 1
+        Mb2 = eng.heap_arr(s2, "_members")
+        for nm_, f in summary(Mb2[g]) + [("other-groups", FA([x], z3.Implies(x != g, Mb2[x] == Mb[x]), patterns=[Mb2[x]]))]:
+            eng.oblige(s2, f, f"call:Group.add_members/lemma:{nm_}", kind="side")
+    if n_ok != 1:
+        raise Unsupported("add_members: the applied contract has not exactly one outcome")
+    S1, w = fresh("mb", Mb[g].sort()), fresh("mbw", z3.ArraySort(Ref, I_))
     st2 = st.setheap("_members", z3.Store(Mb, g, S1)).assume(
-        FA([j], z3.Implies(z3.And(0 <= j, j < n), S1[e[j]]), patterns=[e[j]]),
-        FA([x], z3.Implies(Mb[g][x], S1[x]), patterns=[Mb[g][x]]),
-        FA([x], z3.Implies(S1[x], z3.Or(Mb[g][x], z3.And(0 <= w[x], w[x] < n, e[w[x]] == x))), patterns=[S1[x]]))
+        *([f for _, f in summary(S1)]
+          + [FA([x], z3.Implies(S1[x], z3.Or(Mb[g][x], z3.And(0 <= w[x], w[x] < n, e[w[x]] == x))), patterns=[S1[x]])]))
     return [("ok", st2, NONE)]
 
 
@@ -929,7 +955,15 @@ def _model_level(E, V):
         v = new.get("attr:" + a)
         py.append(isinstance(v, VObj) and v.oid not in s0.objs)
     ctx = new.get("attr:_contexts")
-    cs = [z3.BoolVal(bool(all(py))), z3.BoolVal(V.new.oid not in s0.objs)]
+    # the ORIGINAL model object: every attribute still holds the very value it held at entry, and its containers (the four lists
+    # with their indexes, the context stack, the compartments) are literally the entry records (python-level identity; the engine's
+    # frame check compares replaced containers structurally and skips extended reals: here identity is what matters)
+    now = st.objs[E["self"].oid]
+    same_attrs = set(now) == set(old) and all(now[k] is old[k] for k in old)
+    conts = [old["attr:" + y] for y, _ in LISTS] + [old["attr:_contexts"], old["attr:_compartments"]]
+    conts += [dict_of(s0, old["attr:" + y]) for y, _ in LISTS]
+    same_conts = all(st.objs.get(c.oid) is s0.objs[c.oid] for c in conts)
+    cs = [z3.BoolVal(bool(all(py))), z3.BoolVal(V.new.oid not in s0.objs), z3.BoolVal(bool(same_attrs)), z3.BoolVal(bool(same_conts))]
     if not all(py):
         return cs
     cs.append(st.objs[ctx.oid]["len"] == 0)                                          # no context is carried over (e389e4c)
